@@ -78,3 +78,14 @@ def validate(ctx, sub, module, cfg, tf, runs, timeout=900, label="", events=None
                   (label, module, r.violated, k, json.dumps(bad)[:600]),
                   s, {"trace_run": [json.loads(x) for x in lines[lo:k]][-400:], "rejected": bad, "line": k})
     return False
+
+
+def mc_must_fail(ctx, sub, module, cfg, what, expect=None, timeout=600):
+    """teeth check: the model of the *defective* design must violate the property (else the invariant is vacuous)"""
+    r = ctx.tlc(sub, module, cfg, timeout=timeout, count=False)
+    if r.error:
+        raise __import__("vlib").Trouble("TLC error in %s:\n%s" % (what, r.error))
+    if not r.violated or (expect and r.violated != expect):
+        raise __import__("vlib").Trouble("vacuity: %s should violate %s but TLC reports %s" % (what, expect, r.violated))
+    ctx.extra.setdefault("teeth", []).append({"model": what, "violates": r.violated, "states_to_counterexample": r.distinct})
+    ctx.log("teeth %s/%s: violates %s as expected" % (module, cfg, r.violated))
